@@ -113,7 +113,7 @@ def work(part, n):
         if i % 6 == 5:
             linalg_scenarios(part)
             continue
-        prog = G.gen_pattern_program(part.rng) if part.rng.random() < 0.1 else G.gen_program(part.rng, maxlen=8)
+        prog = G.gen_pattern_program(part.rng) if part.rng.random() < 0.2 else G.gen_program(part.rng, maxlen=8)
         og = part.rng.random() < 0.5
         r = run_program(prog, optimize_graph=og, check_blocks=True)
         part.evaluations += 1
